@@ -26,7 +26,7 @@ pub fn def() -> CheckDef {
     }
 }
 
-const APIS: [&str; 5] = ["get_immutable", "get_mutable", "get_mutable(salt)", "get_mutable_most_recent(salt)", "get_signed_peers"];
+const APIS: [&str; 6] = ["get_immutable", "get_mutable", "get_mutable(salt)", "get_mutable_most_recent(salt)", "get_signed_peers", "get_immutable(a key's slot)"];
 
 fn info(tier: Tier) -> CheckInfo {
     let mut ci = CheckInfo {
@@ -39,7 +39,7 @@ fn info(tier: Tier) -> CheckInfo {
         ),
         assumptions: vec!["trusted base of the oracle: sha1_smol and ed25519-dalek signature verification".into(), "forgery classes, not all byte strings".into()],
     };
-    ci.rule.push_str(" Added: signed-peer lists of 16 records with the forged one last; the node's own put of every kind in flight; lookups also through the blocking Dht API; a server-mode reader all of whose responders report endpoint 0's own address as the reader's public address, confirmed by a ping from that address (immutable, salted mutable and signed-peers lookups).");
+    ci.rule.push_str(" Added: signed-peer lists of 16 records with the forged one last; the node's own put of every kind in flight; lookups also through the blocking Dht API; a server-mode reader all of whose responders report endpoint 0's own address as the reader's public address, confirmed by a ping from that address (immutable, salted mutable and signed-peers lookups); get_immutable of a target that is the unsalted slot of a key the responders own, answered with that key's genuine items (nothing hashes to the target: nothing may be yielded).");
     ci
 }
 
@@ -73,6 +73,9 @@ fn target_of(api: usize) -> Id20 {
         0 => krpc::immutable_target(IMM),
         1 => krpc::mutable_target(&k.pk, None),
         2 | 3 => krpc::mutable_target(&k.pk, Some(SALT)),
+        // api 5: get_immutable of a target that IS the unsalted slot of a key the responders own
+        // (targets come from untrusted places); nothing hashes to it, so nothing may be yielded
+        5 => krpc::mutable_target(&k.pk, None),
         _ => INFOHASH,
     }
 }
@@ -86,6 +89,9 @@ fn salt_of(api: usize) -> Option<&'static [u8]> {
 }
 
 fn menu_len(api: usize) -> usize {
+    if api == 5 {
+        return 4;
+    }
     if (1..=4).contains(&api) {
         MUT_MENU
     } else {
@@ -105,6 +111,7 @@ fn extra_len(api: usize) -> usize {
 
 fn menu_name(api: usize, v: usize) -> &'static str {
     match api {
+        5 => ["no-value", "the-key's-genuine-item", "the-key's-genuine-binary-item", "other-bytes"][v],
         0 => ["no-value", "right-value", "other-bytes", "bit-flip", "value-of-other-target", "empty", "mutable-reply", "peers-reply"][v],
         1..=3 => ["no-value", "right-item", "other-key-valid", "other-salt", "seq-altered", "value-altered", "sig-altered", "bad-curve-point", "unsalted-slot-item", "immutable-reply", "right-binary-item", "binary-value-byte-swapped"][v],
         _ => ["valid", "valid+forged", "forged+valid", "other-infohash", "key-sig-mismatch", "ts-altered", "empty-list", "peers-reply", "15-valid+forged-last", "16-valid", "same-key-twice-older-first"][v],
@@ -118,6 +125,12 @@ fn forged_fields(api: usize, v: usize, now_micros: u64) -> Vec<(&'static str, B)
         vec![("k", B::bytes(pk)), ("seq", B::Int(seq as i128)), ("v", B::bytes(val)), ("sig", B::bytes(krpc::sign_mutable(sk, seq, val, salt)))]
     };
     match api {
+        5 => match v {
+            0 => vec![],
+            1 => mitem(&k.sk, &k.pk, 3, b"a genuine item of the key", None),
+            2 => mitem(&k.sk, &k.pk, 4, &[0xff, 0x01, 0x80, 0xf0, 0x90, 0x80], None),
+            _ => vec![("v", B::bytes(b"completely different bytes"))],
+        },
         0 => match v {
             0 => vec![],
             1 => vec![("v", B::bytes(IMM))],
@@ -367,7 +380,7 @@ fn scenario(cfg: &Cfg, track: bool) -> Out {
     let k = keys();
     w.sync_api = cfg.sync;
     let start_call = |w: &mut World| match cfg.api {
-        0 => w.call_get_immutable(a, target.into()),
+        0 | 5 => w.call_get_immutable(a, target.into()),
         1 => w.call_get_mutable(a, k.pk, None, None),
         2 => w.call_get_mutable(a, k.pk, Some(SALT.to_vec()), None),
         3 => w.call_get_mutable_most_recent(a, k.pk, Some(SALT.to_vec())),
@@ -464,6 +477,7 @@ fn scenario(cfg: &Cfg, track: bool) -> Out {
     // positive control: an authentic answer was offered and something was yielded
     let authentic = match cfg.api {
         0 | 1 | 2 | 3 => 1,
+        5 => usize::MAX,
         _ => 0,
     };
     let offered = cfg.answers.iter().any(|a| *a == authentic);
@@ -484,13 +498,16 @@ fn configs(tier: Tier) -> Vec<Cfg> {
     let n = 3;
     let orders: usize = (1..=n).product();
     let mut v = vec![];
-    for api in 0..5 {
+    for api in 0..6 {
         let ml = menu_len(api);
         for c in 0..ml.pow(n as u32) {
             let answers: Vec<usize> = (0..n).map(|i| (c / ml.pow(i as u32)) % ml).collect();
             for order in 0..orders {
                 for join in 0..5 {
                     if join == 3 && api != 2 {
+                        continue;
+                    }
+                    if api == 5 && join >= 2 {
                         continue;
                     }
                     if join == 4 && (!(api == 0 || api == 2 || api == 4) || (tier.is_quick() && order != 0)) {
